@@ -1,13 +1,14 @@
 #!/bin/sh
 # tools/benign_eval.sh <ID> <n> [<check ids>...]
-# A behaviour-preserving refactoring written by a sub-agent in /tmp/ben-<ID>/_seed/<n>:
+# A behaviour-preserving refactoring written by a sub-agent in /tmp/${BEN_PREFIX:-ben}-<ID>/_seed/<n>
+# (kept as benign/<ID>-${BEN_TAG}<n>):
 # the pinned suite and its own selfcheck must pass with the patch, and NO check may
 # raise an alarm on it (exit 0 expected everywhere).  Kept under /verif/benign/<ID>-<n>/.
 here=$(cd "$(dirname "$0")/.." && pwd)
 id=$1; n=$2; shift 2
 checks=${*:-$id}
-src=/tmp/ben-$id/_seed/$n
-dst=$here/benign/$id-$n
+src=/tmp/${BEN_PREFIX:-ben}-$id/_seed/$n
+dst=$here/benign/$id-${BEN_TAG:-}$n
 [ -f "$src/patch.diff" ] || { echo "no patch in $src"; exit 2; }
 work=$(mktemp -d /dev/shm/cnfgen-benign.XXXXXX); trap 'rm -rf "$work"' EXIT
 cp -r /repo "$work/repo" && rm -rf "$work/repo/.git"
